@@ -98,6 +98,15 @@ def r1(ctx, sch):
                "(a loop over the whole attribute value)", node=s.call, func=f,
                sig="Parent loop iterates %s" % (norm(whole) if whole is not None else "nothing (no loop)"))
         lv = ploop.target.id if ploop is not None and isinstance(ploop.target, ast.Name) else None
+        if ploop is not None and lv:
+            for n in ast.walk(ploop):
+                if isinstance(n, ast.Assign) and isinstance(n.targets[0], ast.Subscript):
+                    key_names = {x.id for x in ast.walk(n.targets[0].slice) if isinstance(x, ast.Name)}
+                    val_names = {x.id for x in ast.walk(n.value) if isinstance(x, ast.Name)}
+                    if lv not in key_names and lv in val_names:
+                        ctx.ob("R1", False, "every Parent value of a feature survives: inside the loop over the Parent values nothing is stored under a key "
+                               "that does not depend on the value (each pass would overwrite the previous parent)", node=n, func=f,
+                               sig="Parent loop overwrites %s with each parent" % norm(n.targets[0]))
         ok_p = isinstance(parent_e, ast.Name) and parent_e.id == lv
         ok_c = norm(child_e) == "%s.id" % fv
         ctx.ob("R1", ok_p and ok_c, "the row is (Parent value, this feature's id)", node=s.call, func=f,
